@@ -2,57 +2,91 @@
 """
 Evaluate a seeded defect produced by an independent sub-agent.
 
-  tools/seeded_eval.py <worktree> <n> <PROP> [more PROPs…]
+  tools/seeded_eval.py <worktree> <n> <PROP> [more PROPs…] [--no-repo | --no-scratch]
 
-1. In the scratch worktree: apply seeded/<n>/patch.diff, copy the demo, run the existing test suite
-   (must pass), run the demo (must fail); revert, run the demo (must pass).
-2. In /repo: apply the patch, run ./check PROP for each property given, revert (git checkout).
-Prints a JSON summary; never leaves /repo modified.
+1. (scratch phase) In the scratch worktree: apply seeded/<n>/patch.diff, run the existing test
+   suite (must pass), run the demo (must fail); revert, run the demo (must pass).
+   Result cached in seeded/<n>/scratch.json.  `--no-repo` stops here (parallelisable).
+2. (repo phase) In /repo: apply the patch, run ./check PROP for each property given, revert.
+   `--no-scratch` reuses the cached scratch result.
+Confirmed seeds are stored under /verif/seeded/<PROP>-<n>/.  Never leaves /repo modified; evidence
+files are restored (they must describe runs on the unchanged tree).
 """
 import sys, os, json, subprocess, shutil, re, time
-wt, n = sys.argv[1], sys.argv[2]
-props = sys.argv[3:]
+
+args = [a for a in sys.argv[1:] if not a.startswith("--")]
+flags = [a for a in sys.argv[1:] if a.startswith("--")]
+wt, n = args[0], args[1]
+props = args[2:]
+NO_REPO = "--no-repo" in flags
+NO_SCRATCH = "--no-scratch" in flags
 sd = os.path.join(wt, "seeded", n)
 meta = json.load(open(os.path.join(sd, "meta.json")))
 env = dict(os.environ, CARGO_NET_OFFLINE="true")
+
+
 def sh(cmd, cwd, timeout=3600):
     p = subprocess.run(cmd, shell=True, cwd=cwd, env=env, stdout=subprocess.PIPE, stderr=subprocess.STDOUT, timeout=timeout)
     return p.returncode, p.stdout.decode("utf-8", "replace")
+
+
 res = {"property": meta.get("property"), "summary": meta.get("summary"), "needs": meta.get("needs")}
 patch = os.path.join(sd, "patch.diff")
-# --- scratch worktree
-sh("git checkout -- . ", wt)
-rc, out = sh("git apply --check %s" % patch, wt)
-res["applies"] = rc == 0
-if rc != 0:
-    res["error"] = out[-500:]
-    print(json.dumps(res, indent=1)); sys.exit(1)
-demo_cmd = meta["demo_cmd"]
-sh("git apply %s" % patch, wt)
-rc, out = sh("cargo test --workspace --offline --no-fail-fast 2>&1 | grep -E '^test result|FAILED|^error' ", wt)
-lines = out.strip().split("\n")
-passed = sum(int(m.group(1)) for m in re.finditer(r"(\d+) passed", out))
-failed = sum(int(m.group(1)) for m in re.finditer(r"(\d+) failed", out))
-res["suite_with_patch"] = {"passed": passed, "failed": failed, "errors": [l for l in lines if l.startswith("error")][:3]}
-rc, out = sh(demo_cmd, wt)
-res["demo_with_patch_fails"] = rc != 0
-sh("git checkout -- . ", wt)
-rc, out = sh(demo_cmd, wt)
-res["demo_without_patch_passes"] = rc == 0
-# remove demo files the command copied into crates/
-sh("git clean -fdq crates", wt)
+scratch_json = os.path.join(sd, "scratch.json")
+
+
+def scratch_phase():
+    sh("git checkout -- . ", wt)
+    rc, out = sh("git apply --check %s" % patch, wt)
+    r = {"applies": rc == 0}
+    if rc != 0:
+        r["error"] = out[-500:]
+        return r
+    demo_cmd = "mkdir -p crates/geom/tests crates/path/tests crates/tessellation/tests crates/algorithms/tests crates/extra/tests; " + meta["demo_cmd"]
+    sh("git apply %s" % patch, wt)
+    rc, out = sh("cargo test --workspace --offline --no-fail-fast 2>&1 | grep -E '^test result|FAILED|^error' ", wt)
+    lines = out.strip().split("\n")
+    passed = sum(int(m.group(1)) for m in re.finditer(r"(\d+) passed", out))
+    failed = sum(int(m.group(1)) for m in re.finditer(r"(\d+) failed", out))
+    r["suite_with_patch"] = {"passed": passed, "failed": failed, "errors": [l for l in lines if l.startswith("error")][:3]}
+    rc, out = sh(demo_cmd, wt)
+    r["demo_with_patch_fails"] = rc != 0
+    sh("git checkout -- . ", wt)
+    rc, out = sh(demo_cmd, wt)
+    r["demo_without_patch_passes"] = rc == 0
+    sh("git clean -fdq crates", wt)
+    return r
+
+
+if NO_SCRATCH and os.path.exists(scratch_json):
+    res.update(json.load(open(scratch_json)))
+else:
+    r = scratch_phase()
+    json.dump(r, open(scratch_json, "w"))
+    res.update(r)
+if not res.get("applies"):
+    print(json.dumps(res, indent=1))
+    sys.exit(1)
+ok = res["suite_with_patch"]["failed"] == 0 and not res["suite_with_patch"]["errors"] and res["suite_with_patch"]["passed"] > 300 \
+     and res["demo_with_patch_fails"] and res["demo_without_patch_passes"]
+res["confirmed"] = bool(ok)
+if NO_REPO:
+    print(json.dumps(res, indent=1))
+    sys.exit(0)
+
 # --- /repo
 rc, out = sh("git status --porcelain --untracked-files=no", "/repo")
 if out.strip():
     res["error"] = "/repo not clean: " + out[:200]
-    print(json.dumps(res, indent=1)); sys.exit(1)
+    print(json.dumps(res, indent=1))
+    sys.exit(1)
 rc, out = sh("git apply --check %s" % patch, "/repo")
 if rc != 0:
     res["error"] = "patch does not apply to /repo (it moved on): " + out[-300:]
-    print(json.dumps(res, indent=1)); sys.exit(1)
+    print(json.dumps(res, indent=1))
+    sys.exit(1)
 sh("git apply %s" % patch, "/repo")
 res["checks"] = {}
-# evidence files must describe runs on the unchanged tree: keep them aside while the patch is applied
 saved = {}
 for p in props:
     ef = "/verif/evidence/%s.json" % p
@@ -71,10 +105,7 @@ finally:
         open(ef, "wb").write(data)
 rc, out = sh("git status --porcelain --untracked-files=no", "/repo")
 res["repo_clean_after"] = out.strip() == ""
-# keep the change under /verif/seeded/<prop>-<n>/ once everything about it is confirmed
-ok = res.get("applies") and res["suite_with_patch"]["failed"] == 0 and not res["suite_with_patch"]["errors"] \
-     and res["demo_with_patch_fails"] and res["demo_without_patch_passes"]
-res["confirmed"] = bool(ok)
+
 if ok:
     dst = os.path.join("/verif/seeded", "%s-%s" % (meta.get("property", "X"), n))
     os.makedirs(dst, exist_ok=True)
